@@ -180,6 +180,13 @@ func (f *ruleFactory) createExecutePipeline(
 	finalizersCheck := func() error { return nil }
 
 	for _, pipelineStep := range pipeline {
+		if referencedMechanisms(pipelineStep) > 1 {
+			// e.g. because of a forgotten dash in front of the next step. Just one of
+			// the mechanisms would be used. All the others would be silently ignored
+			return nil, nil, nil, errorchain.NewWithMessage(heimdall.ErrConfiguration,
+				"a step in execute references more than one mechanism")
+		}
+
 		id, found := pipelineStep["authenticator"]
 		if found {
 			if len(subjectHandlers) != 0 || len(finalizers) != 0 {
@@ -232,6 +239,18 @@ func (f *ruleFactory) createExecutePipeline(
 	}
 
 	return authenticators, subjectHandlers, finalizers, nil
+}
+
+func referencedMechanisms(pipelineStep config.MechanismConfig) int {
+	count := 0
+
+	for _, kind := range []string{"authenticator", "authorizer", "contextualizer", "finalizer"} {
+		if _, found := pipelineStep[kind]; found {
+			count++
+		}
+	}
+
+	return count
 }
 
 func (f *ruleFactory) createOnErrorPipeline(
